@@ -108,6 +108,9 @@ def families(tier):
               dict(bus='C', pat='G', name='hg', prog=[('pause',)]), dict(bus='A', pat='X', name='hxA', prog=[('pause',)])]
         out.append(dict(prop='C06', family='c06.mutex.serial', id=f'c06/three-{pshape}-o{"".join(o)}', cfg=cfg, params=dict(first_b='handler', par_a=False, par_b=False),
                         scn=dict(buses={'A': {}, 'B': {}, 'C': {}}, order=list(o), handlers=hs, main=[('disp', 'A', 'P', 'ff'), ('disp', 'A', 'X', 'ff')], actors=[], forwards=[], settle=3.0)))
+    # the grammar-generated corpus shared by the bus properties (vsched/gen.py), judged by this property's oracle
+    from .. import gen
+    out += gen.family('C06', tier, params=dict(first_b='generated', par_a=None, par_b=None), timeouts=(None,))
     return out
 
 
